@@ -81,7 +81,9 @@ def registry():
         import votelib.evaluate.proportional as prop, votelib.evaluate.auxiliary as aux
         for nm, mk in (('tiebreak_dhondt', lambda: core.TieBreaking(prop.HighestAverages('d_hondt'), aux.Sortitor(seed=3))),
                        ('tiebreak_lr_hare', lambda: core.TieBreaking(prop.LargestRemainder('hare'), aux.Sortitor(seed=3))),
-                       ('tiebreak_plurality', lambda: core.TieBreaking(core.Plurality(), aux.Sortitor(seed=3)))):
+                       ('tiebreak_plurality', lambda: core.TieBreaking(core.Plurality(), aux.Sortitor(seed=3))),
+                       # a tie breaker that hands the tie back unresolved (level votes): the tied seats must stay in the result
+                       ('tiebreak_dhondt_by_votes', lambda: core.TieBreaking(prop.HighestAverages('d_hondt'), core.Plurality()))):
             _REG[nm] = dict(name=nm, vtype='simple', kind=('sel' if 'plurality' in nm else 'dist'), make=mk, family=None, scale_free=True, seats=True,
                             max_k=None, det=True, needs=None, exact=True, min_cands=1)
     return _REG
@@ -615,7 +617,7 @@ def explore(ctx, widen=1):
     def gen_level(r, e):
         m = r.randint(3, 6)
         return [[k, r.choice([6, 6, 6, 12, 12, 7])] for k in range(1, m + 1)]
-    sweep(ctx, 'tiebreak-level', ctx.n(600, 8000) * widen, rng, gen=gen_level, only=['tiebreak_dhondt', 'tiebreak_lr_hare', 'tiebreak_plurality'])
+    sweep(ctx, 'tiebreak-level', ctx.n(600, 8000) * widen, rng, gen=gen_level, only=['tiebreak_dhondt', 'tiebreak_lr_hare', 'tiebreak_plurality', 'tiebreak_dhondt_by_votes'])
     # majority judgment on the level-median profiles of C12 (equal medians across the cut, several candidates separating in
     # the same removal round), three and more seats preferred: the recursive tie-break must return exactly n names
     import props.c12 as c12
